@@ -669,6 +669,7 @@ class IPAddr6 (_AddrBase):
     if len(addr) == 1:
       return check(IPAddr6(addr[0]), 0)
     try:
+      if not re.fullmatch('[0-9]+', addr[1], re.ASCII): raise ValueError()
       wild = 128-int(addr[1])
     except:
       # Maybe they passed a netmask
@@ -862,6 +863,7 @@ def parse_cidr (addr, infer=True, allow_host=False):
       # Some bits in the wildcarded part are set, so we'll assume it's a host
       return check(addr, 0)
   try:
+    if not re.fullmatch('[0-9]+', addr[1], re.ASCII): raise ValueError()
     wild = 32-int(addr[1])
   except:
     # Maybe they passed a netmask
